@@ -32,11 +32,15 @@ type shimSession struct {
 	ctx context.CancelFunc
 }
 
-func openShim(e *vh.Env, cs interface{}) *shimSession {
+func openShim(e *vh.Env, cs interface{}) *shimSession { return openShimInj(e, cs, false) }
+
+// openShimInj: with inject, the shim runs with header injection into JSON messages enabled (one more code path for
+// every data call).
+func openShimInj(e *vh.Env, cs interface{}, inject bool) *shimSession {
 	be := newWsBackend()
 	ident := func(h http.Handler, _ *metrics.MetricHandler) http.Handler { return h }
 	ctx, cancel := context.WithCancel(context.Background())
-	h, _ := websockets.Proxy(ctx, http.NotFoundHandler(), be.host(), "shimpath", false, false, ident, nil)
+	h, _ := websockets.Proxy(ctx, http.NotFoundHandler(), be.host(), "shimpath", false, inject, ident, nil)
 	code, body := shimCall(h, "open", "ws://whatever/ws", nil)
 	var open struct {
 		ID string `json:"id"`
@@ -88,7 +92,7 @@ func suiteShimLife(e *vh.Env) {
 			continue
 		}
 		rng := e.Rng.Sub(i)
-		s := openShim(e, i)
+		s := openShimInj(e, i, i%3 == 0)
 		if s == nil {
 			continue
 		}
@@ -369,7 +373,7 @@ func suiteShimRace(e *vh.Env) {
 			defer wg.Done()
 			defer func() { <-sem }()
 			rng := e.Rng.Sub(i)
-			s := openShim(e, i)
+			s := openShimInj(e, i, i%3 == 0)
 			if s == nil {
 				return
 			}
